@@ -17,9 +17,11 @@ for d in sorted(glob.glob('/verif/seeded/*/')):
         continue
     meta = json.load(open(d + 'meta.json'))
     prop = meta['breaks_property']
+    if meta.get('obsolete_since'):
+        rows.append((mid, prop, 'OBSOLETE', meta['obsolete_since'])); print(rows[-1], flush=True); continue
     ap = subprocess.run(['git', '-C', '/repo', 'apply', d + 'patch.diff'], capture_output=True, text=True)
     if ap.returncode != 0:
-        rows.append((mid, prop, 'PATCH-DOES-NOT-APPLY', '')); continue
+        rows.append((mid, prop, 'PATCH-DOES-NOT-APPLY', '')); print(rows[-1], flush=True); continue
     t0 = time.time()
     r = subprocess.run(['./check', prop, '--budget-s', B], cwd='/verif', env=env, capture_output=True, text=True)
     wall = time.time() - t0
@@ -40,4 +42,4 @@ for d in sorted(glob.glob('/verif/seeded/*/')):
     rows.append((mid, prop, 'CAUGHT' if caught else f'MISSED rc={r.returncode}', '; '.join(classes)[:140]))
     print(rows[-1], flush=True)
 subprocess.run('cd /verif && cargo build --release --offline >/dev/null 2>&1', shell=True)
-print('caught', sum(1 for r in rows if r[2] == 'CAUGHT'), 'of', len(rows))
+print('caught', sum(1 for r in rows if r[2] == 'CAUGHT'), 'of', sum(1 for r in rows if r[2] != 'OBSOLETE'), '(obsolete:', sum(1 for r in rows if r[2] == 'OBSOLETE'), ')')
